@@ -1,2 +1,23 @@
-(* C04 - property statements (theorems are being added) *)
-From Asherah Require Import Envelope.Session.
+(* C04 - expired keys are never used to protect new data.
+   PROVED (partial), for every cache state and loader: every key GetOrLoadLatest hands out for new data either
+   passed the revoked/expired check at the current time of the operation, or is the answer its loader gave in this
+   very call (C04_latest_key_checked).
+   REFUTED on the faithful model (known finding C04-IK): clause 3 - "an intermediate key whose system key has
+   expired stops being used within one revoke-check interval" - fails when a decrypt-path load installed or
+   refreshed the cache entry (C04_clause3_refuted, a computed history).  Clauses 1-2 and clause 3 outside that
+   signature are decided by the correspondence + monitor. *)
+From Asherah Require Import Envelope.Session Envelope.Frame Envelope.FrameInst Envelope.Rotation.
+
+Theorem C04_latest_key_checked : forall cid rci ex id loader w k w',
+  (forall x, pres now_same (loader x)) ->
+  get_or_load_latest (Some cid) rci ex id loader w = (inr k, w') ->
+  (exists w1 w2, is_key_invalid k ex w1 = (inr false, w2) /\ w_now w1 = w_now w) \/
+  (exists w1 w2, loader {| km_id := id; km_created := 0 |} w1 = (inr k, w2) /\ w_now w1 = w_now w).
+Proof. exact latest_key_checked. Qed.
+Print Assumptions C04_latest_key_checked.
+
+Theorem C04_clause3_refuted :
+  last_enc_parent witness_expiry = Some (t0 / sec + 50) /\ nth_enc_parent 8 witness_expiry = Some (t0 / sec + 120) /\
+  is_key_expired (t0 + 120 * sec - p_rci pol100) (t0 / sec) (p_expire pol100) = true.
+Proof. exact C04_refuted_by_decrypt_refresh. Qed.
+Print Assumptions C04_clause3_refuted.
